@@ -4,6 +4,8 @@ import PhyVerif.Lemmas.C16
 import PhyVerif.Lemmas.C16b
 import PhyVerif.Model.C16c
 import PhyVerif.Lemmas.C16c
+import PhyVerif.Model.C16d
+import PhyVerif.Lemmas.C16d
 /-!
 # C16 — chunkings tile the sample axis exactly once
 
@@ -154,5 +156,80 @@ example : gapsLe 3 [0,3,6,9,10] = true ∧
 example : mtsChunkSize (1/4) 10 = 2 ∧ mtsChunkSize (5/2) 1 = 2 := by decide +kernel
 example : (chunkBounds 7 3 1).map (fun c => (pySlice [10,11,12,13,14,15,16] c.ks c.ke, chunkData [10,11,12,13,14,15,16] c)) =
     [([10,11,12], [10,11,12]), ([13,14], [12,13,14]), ([15,16], [14,15,16])] := by decide
+
+/-! ## The chunk length as the float unit computes it (`Model/C16d.lean`, `Model/Fl.lean`) -/
+
+open PhyVerif.Fl in
+/-- `chunk_size = int(round(600.0 * sample_rate))` with the FLOAT product (`Fl.roundDouble`: IEEE-754 binary64,
+round to nearest even), `rate` = the exact value of the double handed to the reader: within half a sample PLUS
+half an ulp of the product of 600 s worth of samples (`2^e` = unit in the last place of `600·rate`). -/
+theorem chunkSizeFl_close (rate : Rat) (hr : rate ≠ 0) :
+    600 * rate - 1 / 2 - pow2 (ulpExp (600 * rate) - 1) ≤ (chunkSizeFl rate : Rat) ∧
+    (chunkSizeFl rate : Rat) ≤ 600 * rate + 1 / 2 + pow2 (ulpExp (600 * rate) - 1) :=
+  Lemmas.chunkSizeFl_close rate hr
+
+open PhyVerif.Fl in
+/-- … in relative form for every rate: half an ulp is at most `2^-53·|600·rate|` -/
+theorem chunkSizeFl_close_rel (rate : Rat) :
+    600 * rate - 1 / 2 - pow2 (-53) * absR (600 * rate) ≤ (chunkSizeFl rate : Rat) ∧
+    (chunkSizeFl rate : Rat) ≤ 600 * rate + 1 / 2 + pow2 (-53) * absR (600 * rate) :=
+  Lemmas.chunkSizeFl_close_rel rate
+
+open PhyVerif.Fl in
+/-- When the exact product is a double (53 significant bits: every dyadic rate with a short significand, every
+exact `.5` tie) the multiplication rounds nothing and the exact-rational model `chunkSize` IS the code. -/
+theorem chunkSizeFl_eq_chunkSize (rate : Rat) (h : IsDouble (600 * rate)) : chunkSizeFl rate = chunkSize rate :=
+  Lemmas.chunkSizeFl_eq_chunkSize rate h
+
+open PhyVerif.Fl in
+/-- Away from the ties — an integer closer than `1/2 − 2^-53·|600·rate|` to the exact product — both models give
+that integer. -/
+theorem chunkSizeFl_eq_of_far (rate : Rat) (m : Int)
+    (h1 : 600 * rate - 1 / 2 + pow2 (-53) * absR (600 * rate) < m)
+    (h2 : (m : Rat) < 600 * rate + 1 / 2 - pow2 (-53) * absR (600 * rate)) :
+    chunkSizeFl rate = m ∧ chunkSizeFl rate = chunkSize rate :=
+  ⟨Lemmas.chunkSizeFl_unique rate m h1 h2, Lemmas.chunkSizeFl_eq_of_far rate m h1 h2⟩
+
+/-- The constructors' `assert chunk_size > 0` (traces.py:144) passes exactly when the exact product exceeds
+`1/2 + 2^-54`: between `1/2` and that mid-point the float product is the tie `0.5` and `round(0.5) = 0`
+(the exact-rational model accepts those rates: `chunkSize_pos_iff`). -/
+theorem chunkSizeFl_pos_iff (rate : Rat) :
+    0 < chunkSizeFl rate ↔ 1 / 2 + 1 / 18014398509481984 < 600 * rate :=
+  Lemmas.chunkSizeFl_pos_iff_rate rate
+
+/-- The reader clause with the chunk length the float unit computes: whenever the constructor accepts the rate,
+for any number of files the bounds exist, start at 0, end at the sample count, increase strictly, contain every
+file boundary, and are never further apart than `int(round(fl(600·rate)))`; otherwise `AssertionError`. -/
+theorem readerChunkBoundsFl_ok (sizes : List Nat) (rate : Rat) (hne : sizes ≠ []) (hr : 0 < chunkSizeFl rate) :
+    ∃ cb, readerChunkBoundsFl sizes rate = some cb ∧ boundsOK sizes (chunkSizeFl rate).toNat cb = true :=
+  Lemmas.readerChunkBoundsFl_ok sizes rate hne hr
+
+theorem readerChunkBoundsFl_rejects (sizes : List Nat) (rate : Rat) (hr : chunkSizeFl rate ≤ 0) :
+    readerChunkBoundsFl sizes rate = none :=
+  Lemmas.readerChunkBoundsFl_none sizes rate hr
+
+open PhyVerif.Fl in
+/-- mtscomp's `int(np.round(chunk_duration * sample_rate))` likewise: within `1/2 + 2^-53·|cd·rate|` of the exact
+product, equal to the exact-rational model when the product is a double. -/
+theorem mtsChunkSizeFl_close (cd rate : Rat) :
+    (cd * rate - 1 / 2 - pow2 (-53) * absR (cd * rate) ≤ (mtsChunkSizeFl cd rate : Rat) ∧
+     (mtsChunkSizeFl cd rate : Rat) ≤ cd * rate + 1 / 2 + pow2 (-53) * absR (cd * rate)) ∧
+    (IsDouble (cd * rate) → mtsChunkSizeFl cd rate = mtsChunkSize cd rate) :=
+  ⟨Lemmas.mtsChunkSizeFl_close cd rate, Lemmas.mtsChunkSizeFl_eq cd rate⟩
+
+/-! Non-vacuity.  The double `0.0225 = 3242591731706757 / 2^57`: the exact product `600·rate` is just BELOW 13.5
+(nearest integer 13) but the float product is exactly 13.5 and `round` takes the even neighbour 14 — what the real
+reader computes.  `1/16`: an exact tie, both models agree. -/
+example : chunkSizeFl (3242591731706757 / 144115188075855872) = 14 ∧
+    chunkSize (3242591731706757 / 144115188075855872) = 13 := by decide +kernel
+/-- … there the last place of the product is 2^-49 and the bound of `chunkSizeFl_close` is attained up to it:
+`14 - 600·rate = 1/2 + (13.5 - 600·rate)` with `0 < 13.5 - 600·rate ≤ 2^-50` -/
+example : PhyVerif.Fl.ulpExp (600 * (3242591731706757 / 144115188075855872)) = -49 ∧
+    (14 : Rat) ≤ 600 * (3242591731706757 / 144115188075855872) + 1 / 2 + PhyVerif.Fl.pow2 (-50) := by decide +kernel
+example : chunkSizeFl (1 / 16) = 38 ∧ chunkSizeFl 30000 = 18000000 ∧ chunkSizeFl (1 / 1200) = 0 := by decide +kernel
+example : PhyVerif.Fl.IsDouble ((600 : Rat) * (1 / 16)) := ⟨75, -1, by decide, by decide +kernel⟩
+example : readerChunkBoundsFl [30, 55, 41] (3242591731706757 / 144115188075855872) =
+    some [0, 14, 28, 30, 44, 58, 72, 85, 99, 113, 126] := by decide +kernel
+example : mtsChunkSizeFl (1 / 4) 10 = 2 ∧ mtsChunkSizeFl (3152519739159347 / 9007199254740992) 10 = 4 := by decide +kernel
 
 end PhyVerif.C16
